@@ -39,6 +39,16 @@ func newOrderedKV(ops *KVOps) *KV {
 	return &KV{ops: ops, ordered: true}
 }
 
+// nonNilBytes maps a nil slice to an empty one. SQL drivers bind a nil []byte
+// as NULL, which the not-null value column rejects, while an empty value is
+// valid on every backend.
+func nonNilBytes(bs []byte) []byte {
+	if bs == nil {
+		return []byte{}
+	}
+	return bs
+}
+
 func (b *KV) mapKey(k string) (string, error) {
 	return kvMapKey(k, b.ordered)
 }
@@ -153,7 +163,7 @@ func (b *KV) AppendBytes(k string, bs []byte) error {
 	if err != nil {
 		return err
 	}
-	return b.ops.Append(mk, bs)
+	return b.ops.Append(mk, nonNilBytes(bs))
 }
 
 // SetBytes updates the value bytes of a particular entry.
@@ -162,7 +172,7 @@ func (b *KV) SetBytes(k string, bs []byte) error {
 	if err != nil {
 		return err
 	}
-	return b.ops.Set(mk, bs)
+	return b.ops.Set(mk, nonNilBytes(bs))
 }
 
 // Set updates the JSON value of a particular entry.
